@@ -218,11 +218,27 @@ void XMLWriter::init(const template_t& templ)
     endElement();
 }
 
+/* An edge starts and ends in a location or in a branchpoint (the unused pointer is null).
+ * Locations are numbered from 0; branchpoints take the negative numbers and ids "bp<n>". */
+static int endNr(const location_t* loc, const branchpoint_t* bp) { return loc != nullptr ? loc->nr : -1 - bp->bpNr; }
+static string endId(int nr) { return nr >= 0 ? concat("id", nr) : concat("bp", -1 - nr); }
+
+/* writes a branchpoint */
+void XMLWriter::branchpoint(const branchpoint_t& bp)
+{
+    int nr = endNr(nullptr, &bp);
+    startElement("branchpoint");
+    writeAttribute("id", endId(nr).c_str());
+    writeAttribute("x", std::to_string(STEP * nr).c_str());
+    writeAttribute("y", std::to_string(STEP * nr).c_str());
+    endElement();
+}
+
 /* writes the source of the given edge */
 int XMLWriter::source(const edge_t& edge)
 {
-    int loc = edge.src->nr;
-    const auto id = concat("id", loc);
+    int loc = endNr(edge.src, edge.srcb);
+    const auto id = endId(loc);
     startElement("source");
     writeAttribute("ref", id.c_str());
     endElement();
@@ -232,8 +248,8 @@ int XMLWriter::source(const edge_t& edge)
 /* writes the target of the given edge */
 int XMLWriter::target(const edge_t& edge)
 {
-    int loc = edge.dst->nr;
-    const auto id = concat("id", loc);
+    int loc = endNr(edge.dst, edge.dstb);
+    const auto id = endId(loc);
     startElement("target");
     writeAttribute("ref", id.c_str());
     endElement();
@@ -277,7 +293,7 @@ void XMLWriter::transition(const edge_t& edge)
     auto src = source(edge);
     auto dst = target(edge);
     if (src == dst) {
-        float angle = (edge.src->uid.get_name() != "lpmin") ? (3 * M_PI_2) : M_PI;
+        float angle = (edge.src == nullptr || edge.src->uid.get_name() != "lpmin") ? (3 * M_PI_2) : M_PI;
         selfLoop(src, angle, edge);
     } else {
         int x = STEP * src;
@@ -348,6 +364,11 @@ void XMLWriter::taTempl(const template_t& templ)
     for (auto& loc : templ.locations) {
         location(loc);
         selfLoops[loc.nr] = 0;
+    }
+    // branchpoints
+    for (auto& bp : templ.branchpoints) {
+        branchpoint(bp);
+        selfLoops[endNr(nullptr, &bp)] = 0;
     }
     // initial location
     init(templ);
